@@ -70,12 +70,16 @@ def run_one(cfg, seed, c, hole):
     from tempest import Sampler
     cfg = dict(cfg)
     sharp = cfg.pop("sharp", False)   # a likelihood so peaked that the first positive temperature is the search resolution 2^-14
+    plateau = cfg.pop("plateau", None)  # a flat-topped likelihood whose plateau has this height: log-likelihoods exactly 0.0 (or exactly -c) occur
     f32 = cfg.pop("f32", False)       # a prior transform that hands out single-precision parameters (the likelihood still returns doubles)
     ptf = (lambda u: (8.0 * u - 4.0).astype(np.float32)) if f32 else pt
 
     def like(x):
         if hole and x[0] < -3.0:
             return -np.inf
+        if plateau is not None:
+            r2 = float(np.sum(x ** 2))
+            return (plateau if r2 < 4.0 else plateau - 0.75 * (r2 - 4.0)) + c
         if sharp:
             return -sharp * float(np.sum(x ** 2)) + c
         return -0.5 * float(np.sum(x ** 2)) + 0.2 * float(np.sin(2 * x[0])) + c
@@ -169,6 +173,7 @@ def band_probe(run, tier, rng):
 def sweep(run, tier, rng):
     cfgs = [dict(clustering=False), dict(clustering=True, sample="rwm", resample="syst"), dict(clustering=False, volume_variation=0.5),
             dict(clustering=False, volume_variation=0.05), dict(clustering=False, sharp=1000.0, hole=True), dict(clustering=False, sharp=6000.0, hole=True), dict(clustering=False, sample="rwm", sharp=3000.0, hole=True),
+            dict(clustering=False, plateau=0.0, hole=False), dict(clustering=False, sample="rwm", plateau=-37.5, hole=True),
             dict(clustering=False, f32=True, hole=False), dict(clustering=False, sample="rwm", resample="syst", f32=True, hole=True)]
     if tier != "quick":
         cfgs += [dict(clustering=True), dict(clustering=False, sample="rwm"), dict(clustering=True, volume_variation=0.5, resample="syst")]
